@@ -20,6 +20,8 @@ def run(chk):
     tab.run(chk, FUNCTIONS, mode="C04")
     nested_roles(chk)
     forwarding_sites(chk)
+    algorithm_values(chk)
+    combinator_smoke(chk)
 
     def replayer(ob):
         if (ob.witness or {}).get("engine") == "ROLES":
@@ -197,3 +199,120 @@ def forwarding_sites(chk):
                                 chk.add(ob)
                     visit(ch, cls_ctx, fn_ctx)
         visit(tree, None, None)
+
+
+def algorithm_values(chk):
+    """Every algorithm a rule hands on to another generic function is an algorithm OBJECT: plum dispatches on the types of instances, so a class object (`Cholesky`
+    instead of `Cholesky()`) matches no `Algorithm` annotation and the callee has no rule.  AST of the live rule bodies: a name that resolves, in the rule's module, to a
+    subclass of Algorithm may occur only as the callee of a call (instantiation), in an annotation, in a class pattern of `match`, or as the class argument of
+    isinstance / issubclass."""
+    import ast
+    import inspect
+    import textwrap
+    import time
+    from cola.linalg.algorithm_base import Algorithm
+    from vcgen.core import DISCHARGED, FAILED, Ob
+    live = tab.live_table()
+    t0 = time.time()
+    n_names, bad, seen = 0, [], set()
+    for nm, F in live.items():
+        for s_ in F._resolver.signatures:
+            impl = getattr(s_.implementation, "__wrapped__", s_.implementation)
+            if id(impl) in seen:
+                continue
+            seen.add(id(impl))
+            try:
+                tree = ast.parse(textwrap.dedent(inspect.getsource(impl)))
+            except (OSError, TypeError, SyntaxError):
+                continue
+            fdef = next((n for n in ast.walk(tree) if isinstance(n, ast.FunctionDef)), None)
+            if fdef is None:
+                continue
+            g = getattr(impl, "__globals__", {})
+            allowed = set()
+            for node in ast.walk(fdef):
+                if isinstance(node, ast.Call):
+                    allowed.add(id(node.func))
+                    if isinstance(node.func, ast.Name) and node.func.id in ("isinstance", "issubclass") and len(node.args) == 2:
+                        for sub in ast.walk(node.args[1]):
+                            allowed.add(id(sub))
+                elif isinstance(node, ast.MatchClass):
+                    for sub in ast.walk(node.cls):
+                        allowed.add(id(sub))
+                elif isinstance(node, ast.arg) and node.annotation is not None:
+                    for sub in ast.walk(node.annotation):
+                        allowed.add(id(sub))
+            for d in fdef.decorator_list + ([fdef.returns] if fdef.returns is not None else []):
+                for sub in ast.walk(d):
+                    allowed.add(id(sub))
+            for node in ast.walk(fdef):
+                if isinstance(node, ast.Name) and isinstance(node.ctx, ast.Load) and id(node) not in allowed:
+                    obj = g.get(node.id)
+                    if isinstance(obj, type) and issubclass(obj, Algorithm):
+                        n_names += 1
+                        bad.append(f"{nm}{tuple(getattr(t, '__name__', str(t)) for t in s_.types)} line {node.lineno}: the class `{node.id}` is used as a value (not instantiated)")
+    ob = Ob(key="C04/nested calls/every algorithm handed on by a rule is an algorithm object, never the class itself", fn="all dispatch rules", clause="algorithm arguments are instances",
+            engine="TAB", status=DISCHARGED if not bad else FAILED, backend="AST of the live rule bodies, names resolved in the rule's module", secs=time.time() - t0,
+            detail="; ".join(bad)[:600] if bad else f"{len(seen)} rule bodies scanned")
+    if bad:
+        ob.witness = dict(engine="direct", failing_input_found=False, observed=bad[0], expected="an instance", input=bad[0])
+    chk.add(ob)
+
+
+def combinator_smoke(chk):
+    """bounded stand-in (never counted as proved): the binary combinators are CALLED on one concrete operator of every constructible kind on each side.  The table
+    obligations above decide which rule is selected without running it; this run sees a selected rule that cannot take the operands it was selected for (a TypeError,
+    AttributeError or lookup error raised inside it -- e.g. a flattening rule concatenating a list with a tuple).  NumpyNotImplementedError (backend limitation) and the
+    rules' own assertions are not failures."""
+    import json
+    import subprocess
+    import time
+    from vcgen.core import DISCHARGED, FAILED, Ob
+    t0 = time.time()
+    code = r'''
+import json, sys, traceback, numpy as np
+sys.path.insert(0, "/verif")
+import cola
+from vcgen import kinds as K
+rng = np.random.default_rng(4)
+kinds = [k for k in sorted(K.all_operator_kinds()) if k not in ("ConvolveND", "Sparse", "Hessian", "Jacobian", "Kernel", "FFT")]
+made = {}
+for k in kinds:
+    try:
+        made[k] = K.make(k, rng, 3, np.float64, "square")
+    except Exception:
+        pass
+sq = {k: v for k, v in made.items() if v.shape[0] == v.shape[1]}
+fns = {"dot": lambda a, b: a @ b, "add": lambda a, b: a + b, "kron": lambda a, b: cola.kron(a, b), "kronsum": lambda a, b: cola.kronsum(a, b), "sub": lambda a, b: a - b}
+bad, n = [], 0
+for fname, f in fns.items():
+    for ka, A in sq.items():
+        for kb, B in sq.items():
+            if fname in ("dot", "add", "sub") and A.shape != B.shape:
+                continue
+            n += 1
+            try:
+                r = f(A, B)
+                if not hasattr(r, "shape"):
+                    bad.append(f"{fname}({ka}, {kb}) returned {type(r).__name__}")
+            except AssertionError:
+                pass
+            except Exception as e:
+                tb = traceback.format_exc()
+                if "NumpyNotImplementedError" in tb:
+                    continue
+                bad.append(f"{fname}({ka}, {kb}) raises {type(e).__name__}: {str(e)[:120]}")
+print(json.dumps(dict(n=n, bad=bad[:20], nbad=len(bad))))
+'''
+    p = subprocess.run(["/venv/bin/python", "-W", "ignore", "-c", code], cwd="/repo", capture_output=True, text=True, timeout=600)
+    try:
+        out = json.loads(p.stdout.strip().splitlines()[-1])
+    except Exception:
+        out = dict(n=0, nbad=1, bad=["harness error: " + (p.stdout + p.stderr)[-300:]])
+    bad = out.get("bad", [])
+    ob = Ob(key="C04/combinators called on every pair of constructible kinds: the selected rule accepts its operands/bounded(one 3x3 operator per kind)", fn="cola.fns.dot/add/kron/kronsum",
+            clause="every (kind, kind) pair is accepted by the rule selected for it", engine="BOUNDED", status=DISCHARGED if not bad else FAILED, backend="real combinators on concrete operators",
+            secs=time.time() - t0, bounded=True, detail=f"{out.get('n')} calls" if not bad else f"{out.get('nbad')} failures; first: {bad[0]}"[:400])
+    if bad:
+        ob.witness = dict(engine="direct", failing_input_found=not bad[0].startswith("harness error"), input=bad[0].split(" raises")[0], observed=bad[0], expected="an operator")
+    chk.add(ob)
